@@ -45,3 +45,10 @@ Proof.
     destruct (IH t' tf ws' Hg Hw' E2) as [H1 H2]. split; [exact H1 | lia].
 Qed.
 Print Assumptions C05_update_sequences.
+
+(* ---- non-vacuity: concrete non-trivial programs and traces meeting the hypotheses above (proofs/GFIWitness.v) ---- *)
+From Proofs Require Import GFIWitness.
+Example C05_hypotheses_met : wfg ex_g /\ wft ex_g ex_t /\
+  exists t' w b, edit ex_g ex_k2 ex_t (RUpdate ex_c) ex_a' ex_tg = Ok (t', w, b) /\ t' <> ex_t /\ w <> 0.
+Proof. exact (conj ex_wfg (conj ex_wft ex_update_succeeds)). Qed.
+Print Assumptions C05_hypotheses_met.
